@@ -1109,7 +1109,32 @@ def dom_guard(ctx, f, nid):
                 exp |= atoms_of(ds[0], a[2])
                 continue
         exp.add(a)
-    return exp | derived_membership(f, exp)
+    exp = exp | derived_membership(f, exp)
+    return exp | witness_atoms(ctx, f, exp)
+
+
+def witness_atoms(ctx, f, atoms, _depth=0):
+    """`w is not None` where w is a witness variable - None by default, given a value at exactly one place, and the loop around that
+    place is left at once (break directly after it): the conditions that dominate that place held when w got its value, and the loop's
+    variables have kept theirs.  Those atoms are returned (the first-match idiom: `w = next((x for x in xs if c(x)), None)`)."""
+    from ..engine import dominating_edges
+    from ..core.facts import atoms_of
+    out = set()
+    cfg = cfg_of(f)
+    for a in atoms:
+        if not (a[0] == "is" and a[2] == "None" and a[3] is False and a[1].isidentifier()):
+            continue
+        sites = [n for n in cfg.nodes if n.kind == "stmt" and isinstance(n.ast, ast.Assign) and len(n.ast.targets) == 1
+                 and isinstance(n.ast.targets[0], ast.Name) and n.ast.targets[0].id == a[1]]
+        live = [n for n in sites if not (isinstance(n.ast.value, ast.Constant) and n.ast.value.value is None)]
+        if len(live) != 1 or len(sites) < 2:
+            continue
+        nxt = [s_ for s_, l_ in cfg.succ[live[0].id] if not (isinstance(l_, str) and l_ == "exc")]
+        if len(nxt) != 1 or not (cfg.nodes[nxt[0]].kind == "stmt" and isinstance(cfg.nodes[nxt[0]].ast, ast.Break)):
+            continue
+        for (_, c, t) in dominating_edges(cfg, live[0].id):
+            out |= atoms_of(c, t)
+    return out
 
 
 def derived_membership(f, atoms):
